@@ -82,6 +82,11 @@ MUTANTS = [
      "        res, sq, n = None, x, power\n        while n:\n            if n & 1:\n                res = sq if res is None else res.gp(sq)\n            n >>= 1\n            if n:\n                sq = sq.gp(sq)\n        return res", 'pow', 'pass'),   # correct square-and-multiply
     ('multivector.py', "        for i in range(1, power):\n            res = res.gp(x)\n        return res",
      "        for i in range(2, power):\n            res = res.gp(x)\n        return res", 'pow', 'a product of exactly'),
+    ('codegen.py', "num = xconj * (x_xconj - 2 * x_xconj.grade(3, 4))", "num = xconj * (x_xconj - 2 * x_xconj.grade(2, 3))", 'inverse', 'd=4,signature'),
+    ('codegen.py', "num = xconj * ~(x * xconj)", "num = xconj * (x * xconj)", 'inverse', 'd=3,signature'),
+    ('codegen.py', "    elif d == 2:\n        num = x.conjugate()", "    elif d == 2:\n        num = x.involute()", 'inverse', 'd=2,signature'),
+    ('codegen.py', "    denom = (x.sp(num)).e", "    denom = (num.sp(x)).e", 'inverse', 'pass'),                        # <x num>_0 == <num x>_0
+    ('codegen.py', "num = xconj * ~(x * xconj)", "num = ~(x * xconj) * xconj", 'inverse', 'pass'),                       # also a two-sided inverse
     # ---- harmless refactorings: must stay green (no VIOLATION); out-of-subset is acceptable (undecided), refutation is a false alarm
     ('codegen.py', "            termstr = vx * vy if sign > 0 else (- vx * vy)\n            if key_out in res:\n                res[key_out] += termstr\n            else:\n                res[key_out] = termstr",
      "            term = vx * vy if sign > 0 else (- vx * vy)\n            if key_out not in res:\n                res[key_out] = term\n            else:\n                res[key_out] = res[key_out] + term", 'codegen', 'pass'),
@@ -125,6 +130,9 @@ def build_group(H, group):
         AC.vc_new(H)
     elif group == 'tape':
         T.vc_tape_operators(H)
+    elif group == 'inverse':
+        from contracts import inverse_c as IC
+        IC.vc_hitzer_inv(H, 'quick')
     elif group == 'pow':
         from contracts import misc_c as MC
         MC.vc_pow(H); T.vc_tape_pow(H)
